@@ -71,7 +71,7 @@ EXPECT_PROBES = ["decl_before_reg", "reg_before_decl", "chained_register",
                  "reregister", "empty_deps", "dup_deps", "redeclared",
                  "listen_args", "falsy_component",
                  "argument_mutated_after_declaration",
-                 "core_name_per_instance"]
+                 "core_name_per_instance", "registration_listener_raised"]
 
 # known-finding ids (tolerated only when listed as open in
 # /verif/known_findings.json, each at exactly the signature described)
@@ -183,6 +183,11 @@ def gen_plan(seed, tier):
                                             (6, "manual")])}
   cfg = {"comps": comps, "waiters": waiters, "holders": holders,
          "pump_in_goingup": r.chance(0.2)}
+  r9 = Rng(mix(seed, "creg"))
+  if r9.chance(0.25):
+    # a ComponentRegistered listener on core that raises for these names
+    cfg["creg_raises"] = sorted(set(r9.pick(names)
+                                    for _ in range(r9.randint(1, 2))))
 
   def ins(st, lo=0):
     ops.insert(r.randint(min(lo, len(ops)), len(ops)), st)
@@ -439,6 +444,12 @@ class Harness(object):
 
   def _on_creg(self, event):
     self.ev("creg", str(event.name), self.depth)
+    if str(event.name) in (self.cfg.get("creg_raises") or ()):
+      # somebody's monitor of registrations is broken: its problem, not the
+      # dependents' of the component
+      self.probe("registration_listener_raised")
+      raise KeyError("a ComponentRegistered listener fails for %s"
+                     % (event.name,))
 
   def _on_goingup_begin(self, event):
     self.gu += 1
